@@ -32,7 +32,8 @@ type Case struct {
 	NoMetaDir  bool     `json:"no_metadata_directory,omitempty"`
 	Output     string   `json:"output,omitempty"` // silent | one-line | multi-line
 	TwoSigners bool     `json:"two_signers,omitempty"`
-	OddNames   bool     `json:"odd_names,omitempty"` // product names with a comma and a space, content with CR LF line endings
+	HexSteps   bool     `json:"hex_step_names,omitempty"` // step names containing all sixteen hexadecimal digits
+	OddNames   bool     `json:"odd_names,omitempty"`      // product names with a comma and a space, content with CR LF line endings
 	Tamper     string   `json:"tamper,omitempty"`
 	What       string   `json:"what,omitempty"`
 	Link       []string `json:"link,omitempty"`
@@ -72,7 +73,15 @@ type chain struct {
 	failed                   string
 }
 
-func stepName(i int) string { return fmt.Sprintf("step%d", i+1) }
+// hexStepNames: step names that contain every hexadecimal digit (whatever a key id starts with occurs in the name)
+var hexStepNames bool
+
+func stepName(i int) string {
+	if hexStepNames {
+		return fmt.Sprintf("build-0123456789abcdef-%d", i+1)
+	}
+	return fmt.Sprintf("step%d", i+1)
+}
 
 // srcName is the directory the steps work on; with OddNames the path given to -m/-p/-l itself holds a comma and a space.
 func srcName(cs Case) string {
@@ -84,6 +93,7 @@ func srcName(cs Case) string {
 
 // produce carries out the supply chain through CLI invocations only (plus the layout text written by the harness).
 func produce(base string, cs Case) *chain {
+	hexStepNames = cs.HexSteps
 	ch := &chain{dir: gen.FreshDir(base, "chain")}
 	ch.proj = gen.FreshDir(ch.dir, "proj")
 	src := srcName(cs)
@@ -394,6 +404,9 @@ func optTag(cs Case) string {
 	if cs.OddNames {
 		o = append(o, "odd-names-and-crlf-content")
 	}
+	if cs.HexSteps {
+		o = append(o, "step-names-with-all-hex-digits")
+	}
 	if len(o) == 0 {
 		return "default-options"
 	}
@@ -401,6 +414,7 @@ func optTag(cs Case) string {
 }
 
 func judgeChain(c *mcx.Ctx, cs Case, ch *chain) (obs, sig, class string) {
+	hexStepNames = cs.HexSteps
 	modes := strings.Join(cs.Modes, ",")
 	if ch.failed != "" {
 		return ch.failed, "C20|producing-command-failed|" + optTag(cs) + "|" + uniqModes(cs.Modes), "produce"
@@ -598,6 +612,7 @@ func enumerate(thorough bool, emit func(Case)) {
 	}
 	opts := []Case{{}, {DSSE: true}, {Cert: true}, {Lstrip: true}, {NoMetaDir: true}, {Output: "one-line"}, {Output: "multi-line"}, {TwoSigners: true},
 		{DSSE: true, Output: "multi-line"}, {DSSE: true, Cert: true}, {DSSE: true, TwoSigners: true}, {Lstrip: true, NoMetaDir: true}, {OddNames: true}, {OddNames: true, Lstrip: true}, {OddNames: true, DSSE: true},
+		{HexSteps: true}, {HexSteps: true, DSSE: true},
 		{Cert: true, Inter: "separate-files"}, {Cert: true, Inter: "bundle"}, {Cert: true, Inter: "withheld"}}
 	if thorough {
 		for _, d := range []bool{false, true} {
@@ -717,7 +732,7 @@ func replay(c *mcx.Ctx, raw json.RawMessage) (string, string) {
 func init() {
 	mcx.Register(&mcx.Driver{
 		ID: "C20", Run: run, Replay: replay, NoSequence: true,
-		Rule: "histories of CLI invocations of the binary built from the current tree: supply chains of 1..3 steps, each step carried out with `run` or with `record start` / edit / `record stop` (all mode sequences up to 2 steps, uniform ones for 3; thorough: more), under 18 option sets (default, product names with a comma and a space plus CR LF content, --use-dsse, --cert, --cert with functionary certificates two intermediates below the layout root and the intermediates handed to `verify -i` as one file each, as one bundle file, or withheld, --lstrip-paths, no --metadata-directory, one-line and multi-line command output, two layout signers via `sign` twice, and combinations; thorough: the full product of five options), layout signed with `in-toto sign`; then every single tampering of 14 (none, product line endings changed only, product byte changed / added / removed, link digest edited / re-signed by a foreign key / deleted, layout field edited / re-signed by a foreign key, wrong layout key, extra layout key that did not sign, expired layout, second key supplied) followed by `verify`; " +
+		Rule: "histories of CLI invocations of the binary built from the current tree: supply chains of 1..3 steps, each step carried out with `run` or with `record start` / edit / `record stop` (all mode sequences up to 2 steps, uniform ones for 3; thorough: more), under 20 option sets (step names containing all sixteen hexadecimal digits, default, product names with a comma and a space plus CR LF content, --use-dsse, --cert, --cert with functionary certificates two intermediates below the layout root and the intermediates handed to `verify -i` as one file each, as one bundle file, or withheld, --lstrip-paths, no --metadata-directory, one-line and multi-line command output, two layout signers via `sign` twice, and combinations; thorough: the full product of five options), layout signed with `in-toto sign`; then every single tampering of 14 (none, product line endings changed only, product byte changed / added / removed, link digest edited / re-signed by a foreign key / deleted, layout field edited / re-signed by a foreign key, wrong layout key, extra layout key that did not sign, expired layout, second key supplied) followed by `verify`; " +
 			"oracle: exit status 0 <=> the library called in-process on the very same files returns nil, honest => 0, tampered => non-zero, links are at the names the verifier globs for, no preliminary link is left; separately `sign --verify` x {right key, public key, wrong key, tampered file} x wrappers, `key id` / `key layout` for every file of the key pool, `match-products` for the 81 combinations of two link products and two local files. states = produced chains, transitions = CLI invocations.",
 		Assumptions: []string{"the CLI is built with plain `go build` from /repo (no overlay)", "observations are compared after replacing scratch paths"},
 		Workers:     16,
